@@ -88,7 +88,7 @@ package conversions
 //@   ensures 0 <= s.totalRequested.V && s.totalRequested.V <= MaxUint64 ==> result == s.totalRequested.V
 //@   modifies nothing
 //@
-//@ spec func shareZ(req int, bank int, total int) int = (req == 0 || bank == 0 || total == 0) ? 0 : share(req, bank, total)
+//@ spec opaque func shareZ(req int, bank int, total int) int = (req == 0 || bank == 0 || total == 0) ? 0 : share(req, bank, total)
 //@
 //@ func (*ConversionSupplySet).Payouts
 //@   props C16 C14 C01
@@ -100,6 +100,10 @@ package conversions
 //@   ensures @sum_full s.totalRequested.V < s.Bank ==> msum(vals(result), dom(result)) == s.totalRequested.V
 //@   ensures @sum_capped s.totalRequested.V >= s.Bank && len(s.ConversionRequests) > 0 ==> msum(vals(result), dom(result)) == s.Bank
 //@   ensures @share_lower_bound!slow s.totalRequested.V >= s.Bank ==> (forall k string :: dom(s.ConversionRequests)[k] ==> result[k] >= shareZ(s.ConversionRequests[k], s.Bank, s.totalRequested.V))
+//@   // determinism (C01): who receives the rounding dust is fixed by the requests alone -- the highest request, ties broken by the
+//@   // txid order -- so the result is a function of the request map for every iteration order of the three map loops
+//@   ensures @dust_recipient_is_highest_request_lowest_txid{C01,C16} s.totalRequested.V >= s.Bank ==> (forall k1 string, k2 string :: dom(s.ConversionRequests)[k1] && dom(s.ConversionRequests)[k2] && result[k1] != shareZ(s.ConversionRequests[k1], s.Bank, s.totalRequested.V) ==> s.ConversionRequests[k2] <= s.ConversionRequests[k1] && (s.ConversionRequests[k2] == s.ConversionRequests[k1] && k2 != k1 ==> txLE(k1, k2)))
+//@   ensures @only_one_dust_recipient{C01,C16} s.totalRequested.V >= s.Bank ==> (forall k1 string, k2 string :: dom(s.ConversionRequests)[k1] && dom(s.ConversionRequests)[k2] && result[k1] != shareZ(s.ConversionRequests[k1], s.Bank, s.totalRequested.V) && result[k2] != shareZ(s.ConversionRequests[k2], s.Bank, s.totalRequested.V) ==> k1 == k2)
 //@   canary @sum_always_bank len(s.ConversionRequests) > 0 ==> msum(vals(result), dom(result)) == s.Bank
 //@   modifies nothing
 //@   loop 1 invariant @map payouts != nil && fresh(payouts)
@@ -113,6 +117,9 @@ package conversions
 //@   loop 2 invariant @bound totalPaid * s.totalRequested.V <= s.Bank * msum(vals(s.ConversionRequests), visited)
 //@   loop 2 invariant @total s.totalRequested.V >= s.Bank && (s.totalRequested.V == 0 ==> totalPaid == 0)
 //@   loop 2 body-assert @room msum(vals(s.ConversionRequests), visited) <= s.totalRequested.V
+//@   loop 3 invariant @most_is_max forall k string :: visited[k] ==> s.ConversionRequests[k] <= most
+//@   loop 3 invariant @top_are_max forall j int :: 0 <= j && j < len(top) ==> s.ConversionRequests[top[j]] == most && visited[top[j]]
+//@   loop 3 invariant @top_complete forall k string :: visited[k] && s.ConversionRequests[k] == most ==> (exists j int :: 0 <= j && j < len(top) && top[j] == k)
 //@   loop 3 invariant @top_nonempty (exists k string :: visited[k]) ==> len(top) >= 1
 //@   loop 3 invariant @most_pos most > 0 ==> len(top) >= 1
 //@   loop 3 invariant @top_in_dom forall j int :: 0 <= j && j < len(top) ==> dom(s.ConversionRequests)[top[j]]
